@@ -249,7 +249,9 @@ func ParseParameters(query string) []oid.Oid {
 		// NOTE: we have to check whether the returned match is a
 		// positional parameter or an un-positional parameter.
 		// SELECT * FROM users WHERE id = ?
-		if match[1] == "" {
+		// NOTE: the number of parameters is limited by the 16-bit parameter
+		// count used within the wire protocol.
+		if match[1] == "" && len(parameters) < buffer.MaxPreparedStatementArgs {
 			parameters = append(parameters, 0)
 		}
 
